@@ -35,7 +35,7 @@ type document
   relations
     define viewer: [user, group#member]
     define editor: [user]
-type folder
+type documents
   relations
     define viewer: [user]
     define owner: [user]
